@@ -17,6 +17,7 @@ import (
 
 	"verif/internal/evid"
 	"verif/internal/harness"
+	"verif/internal/recdrv"
 	"verif/internal/testdb"
 )
 
@@ -44,6 +45,8 @@ type Owner struct {
 	Refs []Ref  `gorm:"many2many:owner_refs"` // many to many, value elements
 	// polymorphic has one with a custom type value (seals.holder_type = "master")
 	Seal *Seal `gorm:"polymorphic:Holder;polymorphicValue:master"`
+	// many to many whose join table refers to the target by a unique NON-primary column (owner_clubs.club_slug)
+	Clubs []*Club `gorm:"many2many:owner_clubs;references:Slug"`
 	// relations over a unique NON-primary column (references:Code)
 	Code      string `gorm:"uniqueIndex"` // "oc<ID>"
 	GuildCode *string
@@ -124,6 +127,12 @@ type Guild struct {
 	Name string
 }
 
+type Club struct {
+	ID   uint   `gorm:"primaryKey"`
+	Slug string `gorm:"uniqueIndex"` // "c-" + Name
+	Name string
+}
+
 type Badge struct {
 	ID        uint `gorm:"primaryKey"`
 	Name      string
@@ -149,6 +158,7 @@ func (Ref) TableName() string   { return "refs" }
 func (Guild) TableName() string { return "guilds" }
 func (Badge) TableName() string { return "badges" }
 func (Seal) TableName() string  { return "seals" }
+func (Club) TableName() string  { return "clubs" }
 
 const (
 	hasOne    = "has-one"
@@ -188,6 +198,7 @@ var rels = []relSpec{
 	{Name: "Guild", Kind: belongsTo, Table: "guilds", Elem: reflect.TypeOf(Guild{}), PtrFK: true, Ref: true},
 	{Name: "Badges", Kind: hasMany, Table: "badges", Elem: reflect.TypeOf(Badge{}), Ref: true, ByVal: true},
 	{Name: "Seal", Kind: hasOne, Table: "seals", Elem: reflect.TypeOf(Seal{}), Poly: "master"},
+	{Name: "Clubs", Kind: m2m, Table: "clubs", Elem: reflect.TypeOf(Club{}), Ref: true, Join: "owner_clubs"},
 }
 
 func relByName(n string) relSpec {
@@ -255,7 +266,7 @@ func compHandle(id, rev uint) uint {
 }
 
 var belongsToRels = []string{"Boss", "Chief", "Guild"}
-var m2mRels = []string{"Tags", "Langs", "Refs"}
+var m2mRels = []string{"Tags", "Langs", "Refs", "Clubs"}
 
 // guildCode is the referenced (non-primary) column value of a Guild: derived from its unique name.
 func guildCode(name string) string { return "c-" + name }
@@ -333,6 +344,7 @@ type Step struct {
 	Omit       bool    // db.Omit("<Rel>.*"): do not upsert the (saved) many-to-many targets, only join rows
 	Own        int     // own-* forms of Delete: index of the in-memory owner whose own relation field is used
 	OwnIdx     [][]int // own-subslice / own-pointers: per Args entry, the indices into the owner's own field
+	Fault      int     // k > 0: the k-th driver call (begin/commit/prepare/exec/query) of this call fails (injected)
 }
 
 func (s Step) String() string {
@@ -353,6 +365,9 @@ func (s Step) String() string {
 		a = append(a, f+"["+strings.Join(x, ",")+"]")
 	}
 	pre := ""
+	if s.Fault > 0 {
+		pre += fmt.Sprintf("fault@%d:", s.Fault)
+	}
 	if s.Handle != "" {
 		pre += s.Handle + ":"
 	}
@@ -391,8 +406,8 @@ func (su Setup) String() string {
 		mode += "(**Owner)"
 	}
 	mode += " " + su.Cfg.String()
-	return fmt.Sprintf("kind=%s owners=%d mem=%v mode=%s preload=%v seed{%s boss=%v chief=%v guild=%v tags=%v langs=%v refs=%v}",
-		su.Kind, su.NOwners, su.Mem, mode, su.Preload, strings.Join(fk, " "), su.BT["Boss"], su.BT["Chief"], su.BT["Guild"], su.Pairs["Tags"], su.Pairs["Langs"], su.Pairs["Refs"])
+	return fmt.Sprintf("kind=%s owners=%d mem=%v mode=%s preload=%v seed{%s boss=%v chief=%v guild=%v tags=%v langs=%v refs=%v clubs=%v}",
+		su.Kind, su.NOwners, su.Mem, mode, su.Preload, strings.Join(fk, " "), su.BT["Boss"], su.BT["Chief"], su.BT["Guild"], su.Pairs["Tags"], su.Pairs["Langs"], su.Pairs["Refs"], su.Pairs["Clubs"])
 }
 
 // ---- reference model ------------------------------------------------------------------------------
@@ -411,7 +426,7 @@ func ownersHolder(o uint) string { return fmt.Sprintf("owners/%d", o) }
 
 func newModel(su Setup) *model {
 	m := &model{nOwners: su.NOwners, rows: map[string]map[uint]string{}, holder: map[string]map[uint]string{},
-		boss: map[string]map[uint]uint{"Boss": {}, "Chief": {}, "Guild": {}}, pairs: map[string]map[[2]uint]bool{"Tags": {}, "Langs": {}, "Refs": {}},
+		boss: map[string]map[uint]uint{"Boss": {}, "Chief": {}, "Guild": {}}, pairs: map[string]map[[2]uint]bool{"Tags": {}, "Langs": {}, "Refs": {}, "Clubs": {}},
 		gcodes: map[uint]string{}, soft: map[uint][2]string{}}
 	for _, r := range rels {
 		m.rows[r.Name] = map[uint]string{}
@@ -699,9 +714,13 @@ func (m *model) render() string {
 		sort.Slice(ps, func(i, j int) bool { return ps[i][0] < ps[j][0] || ps[i][0] == ps[j][0] && ps[i][1] < ps[j][1] })
 		var es []string
 		for _, p := range ps {
-			es = append(es, fmt.Sprintf(" %d-%s", p[0], r.keyText(p[1])))
+			if r.Ref { // the join row holds the referenced column value
+				es = append(es, fmt.Sprintf(" %d-%s", p[0], guildCode(m.rows[r.Name][p[1]])))
+			} else {
+				es = append(es, fmt.Sprintf(" %d-%s", p[0], r.keyText(p[1])))
+			}
 		}
-		if r.textKey() {
+		if r.textKey() || r.Ref {
 			sort.Strings(es)
 		}
 		b.WriteString(r.Join + ":" + strings.Join(es, "") + "\n")
@@ -717,7 +736,7 @@ func openDB(su Setup) *testdb.DB {
 	d := testdb.Open(testdb.Options{NoReturning: su.Cfg.NoReturning, Config: gorm.Config{DisableForeignKeyConstraintWhenMigrating: true,
 		SkipDefaultTransaction: su.Cfg.SkipTx, CreateBatchSize: su.Cfg.Batch, QueryFields: su.Cfg.QueryFields, FullSaveAssociations: su.Cfg.FullSave}})
 	if ddlCache == nil {
-		if err := d.AutoMigrate(&Owner{}, &One{}, &Many{}, &Note{}, &Boss{}, &Tag{}, &Chief{}, &Part{}, &Lang{}, &Doc{}, &Ref{}, &Guild{}, &Badge{}, &Seal{}); err != nil {
+		if err := d.AutoMigrate(&Owner{}, &One{}, &Many{}, &Note{}, &Boss{}, &Tag{}, &Chief{}, &Part{}, &Lang{}, &Doc{}, &Ref{}, &Guild{}, &Badge{}, &Seal{}, &Club{}); err != nil {
 			panic("harness: migrate: " + err.Error())
 		}
 		var stmts []string
@@ -784,8 +803,12 @@ func openDB(su Setup) *testdb.DB {
 			case r.Comp:
 				ki, kr := compKey(uint(id))
 				fmt.Fprintf(&q, "INSERT INTO %s (id, rev, name) VALUES (%d, %d, '%s');\n", r.Table, ki, kr, name)
-			case r.Ref: // guilds
-				fmt.Fprintf(&q, "INSERT INTO %s (id, name, code) VALUES (%d, '%s', '%s');\n", r.Table, id, name, guildCode(name))
+			case r.Ref: // guilds (code), clubs (slug): the referenced non-primary column
+				col := "code"
+				if r.Name == "Clubs" {
+					col = "slug"
+				}
+				fmt.Fprintf(&q, "INSERT INTO %s (id, name, %s) VALUES (%d, '%s', '%s');\n", r.Table, col, id, name, guildCode(name))
 			default:
 				fmt.Fprintf(&q, "INSERT INTO %s (id, name) VALUES (%d, '%s');\n", r.Table, id, name)
 			}
@@ -796,6 +819,9 @@ func openDB(su Setup) *testdb.DB {
 	}
 	for _, p := range su.Pairs["Langs"] {
 		fmt.Fprintf(&q, "INSERT INTO owner_langs (owner_id, lang_code) VALUES (%d, '%s');\n", p[0], codeOf(p[1]))
+	}
+	for _, p := range su.Pairs["Clubs"] {
+		fmt.Fprintf(&q, "INSERT INTO owner_clubs (owner_id, club_slug) VALUES (%d, '%s');\n", p[0], guildCode(fmt.Sprintf("clubs%d", p[1])))
 	}
 	for _, p := range su.Pairs["Refs"] {
 		ki, kr := compKey(p[1])
@@ -825,6 +851,8 @@ UNION ALL SELECT 13, owner_id, '', 0, ref_id || '.' || ref_rev FROM owner_refs
 UNION ALL SELECT 14, id, name, 0, '' FROM guilds
 UNION ALL SELECT 15, id, name, 0, coalesce(owner_code, '') FROM badges
 UNION ALL SELECT 16, id, name, coalesce(holder_id, 0), CASE holder_type WHEN 'master' THEN 'owners' ELSE holder_type END FROM seals
+UNION ALL SELECT 17, id, name, 0, '' FROM clubs
+UNION ALL SELECT 18, owner_id, '', 0, club_slug FROM owner_clubs
 ORDER BY 1, 2, 4`
 
 // dump reads every table with plain SQL (a fresh query, never through the operated
@@ -837,7 +865,7 @@ func dump(d *testdb.DB) string {
 		panic("harness: dump: " + err.Error())
 	}
 	defer rows.Close()
-	ent := make([][]string, 17)
+	ent := make([][]string, 19)
 	for rows.Next() {
 		var tbl int
 		var id, fk uint
@@ -862,7 +890,7 @@ func dump(d *testdb.DB) string {
 			} else {
 				e = fmt.Sprintf(" %d=%s>%s/%d", id, name, typ, fk)
 			}
-		case 3, 4, 5, 14:
+		case 3, 4, 5, 14, 17:
 			e = fmt.Sprintf(" %d=%s", id, name)
 		case 6:
 			e = fmt.Sprintf(" %d=%s>boss/%d>chief/%s", id, name, fk, typ)
@@ -876,7 +904,7 @@ func dump(d *testdb.DB) string {
 			}
 		case 9, 12:
 			e = fmt.Sprintf(" %s=%s", typ, name)
-		case 10, 13:
+		case 10, 13, 18:
 			e = fmt.Sprintf(" %d-%s", id, typ)
 		case 15: // children linked through the owner's code column "oc<ID>"
 			switch {
@@ -896,8 +924,8 @@ func dump(d *testdb.DB) string {
 		i    int
 		text bool
 	}{{"ones", 0, false}, {"manies", 1, false}, {"notes", 2, false}, {"bosses", 3, false}, {"tags", 4, false}, {"chiefs", 5, false},
-		{"parts", 8, true}, {"langs", 9, true}, {"docs", 11, true}, {"refs", 12, true}, {"guilds", 14, false}, {"badges", 15, false}, {"seals", 16, false},
-		{"owners", 6, false}, {"owner_tags", 7, false}, {"owner_langs", 10, true}, {"owner_refs", 13, true}} {
+		{"parts", 8, true}, {"langs", 9, true}, {"docs", 11, true}, {"refs", 12, true}, {"guilds", 14, false}, {"badges", 15, false}, {"seals", 16, false}, {"clubs", 17, false},
+		{"owners", 6, false}, {"owner_tags", 7, false}, {"owner_langs", 10, true}, {"owner_refs", 13, true}, {"owner_clubs", 18, true}} {
 		if t.text { // text keys: sorted as text, like model.render does
 			sort.Strings(ent[t.i])
 		}
@@ -919,8 +947,9 @@ type hist struct {
 	nextStr map[string]uint // next unused handle of a string-keyed relation
 	// oneUnlinked: the last has-one call of the history was a Delete or Clear (mixed histories
 	// then try a belongs-to Clear more often: the shape of the repaired hasone-zero-pointer finding)
-	oneUnlinked bool
-	stepNo      int
+	oneUnlinked  bool
+	noExclusions bool // witness runs: open classes are not excluded
+	stepNo       int
 }
 
 func start(su Setup) *hist {
@@ -1000,6 +1029,9 @@ func (h *hist) fresh(r relSpec, v Val) reflect.Value {
 		}
 		if r.Name == "Guild" {
 			p.Elem().FieldByName("Code").SetString(guildCode(v.New))
+		}
+		if r.Name == "Clubs" {
+			p.Elem().FieldByName("Slug").SetString(guildCode(v.New))
 		}
 		if v.BackID != 0 { // built like Many{Name: .., Owner: &other}
 			o := &Owner{}
@@ -1265,6 +1297,9 @@ func (h *hist) step(s Step) string {
 		return nil // count, find: checked below for every step
 	}
 	var err error
+	if s.Fault > 0 {
+		h.d.Rec.SetFault(recdrv.FailNth(s.Fault-1, recdrv.ErrInjected))
+	}
 	switch s.Handle {
 	case "tx":
 		tx := h.d.Begin()
@@ -1294,6 +1329,28 @@ func (h *hist) step(s Step) string {
 		}
 		return fmt.Sprintf("%s\n    step: %s\n    database before (model):\n%s    database after:\n%s    model after:\n%s    statements of the step:\n%s",
 			fmt.Sprintf(format, a...), s, indent(before), indent(dump(h.d)), indent(h.m.render()), strings.Join(st, "\n"))
+	}
+	if s.Fault > 0 {
+		h.d.Rec.SetFault(nil)
+		fired := false
+		for _, e := range h.d.Rec.Events() {
+			fired = fired || e.Err == recdrv.ErrInjected
+		}
+		if fired {
+			// a driver call of this association call failed: the call must say so. What is stored after a
+			// failed call is C05's subject; the owner object is in no defined state, the history ends here.
+			if err == nil {
+				// open class slice-save-error-overwritten: Append/Replace on a slice of two or more owners saves
+				// owner by owner and keeps only the error of the LAST save. Exactly the swallowed faults of
+				// that path are excluded (the history ends); everywhere else a swallowed fault is a violation.
+				if len(h.su.Mem) > 1 && (s.Act == "append" || s.Act == "replace") && !h.noExclusions && harness.OpenClass("C12", "slice-save-error-overwritten") {
+					evid.Excluded("slice-save-error-overwritten")
+					return faultEnd
+				}
+				return fail("driver call %d of %s failed (injected fault) but the call returned no error", s.Fault, s.Act)
+			}
+			return faultEnd
+		}
 	}
 	if err != nil {
 		return fail("%s returned an error: %v", s.Act, err)
@@ -1466,6 +1523,9 @@ func (h *hist) step(s Step) string {
 	return ""
 }
 
+// faultEnd is returned by step when an injected fault was reported as an error: the history ends.
+const faultEnd = "\x00fault reported"
+
 func indent(s string) string {
 	return "      " + strings.ReplaceAll(strings.TrimRight(s, "\n"), "\n", "\n      ") + "\n"
 }
@@ -1474,7 +1534,7 @@ func indent(s string) string {
 
 func genSetup(rt *rapid.T) Setup {
 	su := Setup{}
-	su.Kind = rapid.SampledFrom([]string{"One", "Many", "Notes", "Boss", "Chief", "Tags", "Parts", "Langs", "Docs", "Refs", "Guild", "Badges", "Seal", "mixed", "mixed"}).Draw(rt, "kind")
+	su.Kind = rapid.SampledFrom([]string{"One", "Many", "Notes", "Boss", "Chief", "Tags", "Parts", "Langs", "Docs", "Refs", "Guild", "Badges", "Seal", "Clubs", "mixed", "mixed"}).Draw(rt, "kind")
 	su.NOwners = rapid.IntRange(1, 3).Draw(rt, "owners")
 	su.Slice = rapid.IntRange(0, 2).Draw(rt, "mode") == 0
 	if su.Slice {
@@ -1564,7 +1624,7 @@ func (h *hist) genStep(rt *rapid.T, allowUnscoped bool) (Step, stepInfo) {
 	s := Step{}
 	info := stepInfo{}
 	if h.su.Kind == "mixed" {
-		s.Rel = rapid.SampledFrom([]string{"One", "Many", "Notes", "Boss", "Chief", "Tags", "Parts", "Langs", "Docs", "Refs", "Guild", "Badges", "Seal"}).Draw(rt, "rel")
+		s.Rel = rapid.SampledFrom([]string{"One", "Many", "Notes", "Boss", "Chief", "Tags", "Parts", "Langs", "Docs", "Refs", "Guild", "Badges", "Seal", "Clubs"}).Draw(rt, "rel")
 	} else {
 		s.Rel = h.su.Kind
 	}
@@ -1865,6 +1925,9 @@ func (h *hist) genStep(rt *rapid.T, allowUnscoped bool) (Step, stepInfo) {
 		}
 		s.Forms = []string{f}
 	}
+	if s.mutating() && rapid.IntRange(0, 9).Draw(rt, "fault") == 0 {
+		s.Fault = rapid.IntRange(1, 8).Draw(rt, "faultAt")
+	}
 	if r.Kind == m2m && (s.Act == "append" || s.Act == "replace") {
 		saved := true
 		for _, vs := range s.Args {
@@ -1999,8 +2062,16 @@ func TestC12(t *testing.T) {
 				}
 				linkedOrDup = linkedOrDup || info.linked || info.dup
 			}
-			if msg := h.step(s); msg != "" {
+			msg := h.step(s)
+			if msg == faultEnd {
+				classes["fault:reported-as-error/"+r.Kind+"/"+s.Act] = true
+				break
+			}
+			if msg != "" {
 				rt.Fatalf("C12 violated: %s\n  case: %s", msg, desc.String())
+			}
+			if s.Fault > 0 {
+				classes["fault:not-reached"] = true
 			}
 		}
 		var cl []string
@@ -2112,11 +2183,14 @@ func one(rel, act string, unscoped bool, ids ...uint) Step {
 func witness(t *testing.T, su Setup, steps ...Step) {
 	t.Helper()
 	h := start(su)
+	h.noExclusions = true
 	defer h.close()
 	var desc []string
 	for _, s := range steps {
 		desc = append(desc, s.String())
-		if msg := h.step(s); msg != "" {
+		if msg := h.step(s); msg == faultEnd {
+			return
+		} else if msg != "" {
 			t.Errorf("C12 violated: %s\n  case: %s steps: %s", msg, su, strings.Join(desc, "; "))
 			return
 		}
@@ -2225,4 +2299,14 @@ func TestC12Errors(t *testing.T) {
 			t.Errorf("C12 violated: %s (error %v) changed the database\n  before:\n%s  after:\n%s", c.name, err, indent(before), indent(after))
 		}
 	}
+}
+
+// db.Model(&[]Owner{o1,o2}).Association("One").Append(&a, &b) while the first driver call (the save of o1)
+// fails: saveAssociation's loop stores each owner's Updates error in association.Error and the next
+// iteration overwrites it, so the call returns nil although o1's link was not stored.
+func TestC12WitnessSliceSaveErrorOverwritten(t *testing.T) {
+	su := sliceSetup("One", 2)
+	su.Cfg.SkipTx = true
+	s := Step{Rel: "One", Act: "append", Args: [][]Val{{{New: "n1"}}, {{New: "n2"}}}, Forms: []string{"ptrs", "ptrs"}, Fault: 1}
+	witness(t, su, s)
 }
